@@ -53,6 +53,9 @@ CONSTANTS
   HandlerMayClose, \* BOOLEAN: a handler may call w.Close()
   StartMayFail,    \* BOOLEAN: start calls that cannot succeed are made (no listener configured, unusable
                    \* socket / address / Net): the failed-start paths of ActivateAndServe / ListenAndServe
+  SpareFields,     \* BOOLEAN: the Server value may hold BOTH fields: a PacketConn next to the Listener it serves
+                   \* (left over from an earlier udp run of the same value, or supplied by the user), or a
+                   \* Listener next to the PacketConn it serves
   SeqRestart,      \* BOOLEAN: a start call is made only while no other call of the server is in progress
   Bug,             \* "none", or the name of a deliberately broken variant (sanity checks)
   TrackAct         \* BOOLEAN: record the label of the last action in `act'
@@ -61,11 +64,11 @@ P == 1..NStart
 H == 1..NShut
 C == IF Mode = "tcp" THEN 1..NConns ELSE {}
 K == IF Mode = "pc" THEN 1..NPkts ELSE {}
-Lsn == IF Mode = "tcp" THEN 1..NLsn ELSE {}
+Lsn == 1..NLsn
 
 VARIABLES
   \* ---- fields of Server
-  started, lock, gen, closed, conns, lsnField, cfgBad,
+  started, lock, gen, closed, conns, lsnField, cfgBad, pcField,
   \* ---- transports
   lsnOpen, pend,          \* tcp listeners: open?, accept queue
   pcOpen, pcDL, pin,      \* the packet conn: open?, read deadline, packets waiting
@@ -76,24 +79,26 @@ VARIABLES
   \* ---- packet worker k
   kpc, kown, nread,
   \* ---- shutdown caller h
-  shpc, shres, shgen, capt, kick, shseen,
+  shpc, shres, shgen, capt, kick, shseen, shtodo,
   \* ---- clients
   cst, csent, inbox, psent,
   \* ---- history
   replyLost, crashed, act
 
-fields  == <<started, lock, gen, closed, conns, lsnField, cfgBad>>
+fields  == <<started, lock, gen, closed, conns, lsnField, cfgBad, pcField>>
 transp  == <<lsnOpen, pend, pcOpen, pcDL, pin>>
 svars   == <<spc, sgen, sres, wg, scur, serr, slsn, sbad>>
 wvars   == <<wpc, wown, dl, copen, hrep, hclosed>>
 kvars   == <<kpc, kown, nread>>
-shvars  == <<shpc, shres, shgen, capt, kick, shseen>>
+shvars  == <<shpc, shres, shgen, capt, kick, shseen, shtodo>>
 cvars   == <<cst, csent, inbox, psent>>
 hist    == <<replyLost, crashed>>
 vars    == <<fields, transp, svars, wvars, kvars, shvars, cvars, hist, act>>
 View    == <<fields, transp, svars, wvars, kvars, shvars, cvars, hist>>     \* hides `act'
 
 L(x)  == act' = IF TrackAct THEN x ELSE <<>>
+HasPC == Mode = "pc" \/ pcField
+FieldsSet == (IF HasPC THEN {"pc"} ELSE {}) \cup (IF lsnField # 0 THEN {"lsn"} ELSE {})
 NoLock == <<"-", 0>>
 Free  == lock = NoLock
 Min(S) == CHOOSE x \in S : \A y \in S : x <= y
@@ -102,6 +107,7 @@ Init ==
   /\ started = FALSE /\ lock = NoLock /\ gen = 0 /\ closed = {} /\ conns = {}
   /\ lsnField = IF Mode = "tcp" THEN 1 ELSE 0      \* the harness assigned listener 1 before the first call
   /\ cfgBad = FALSE
+  /\ pcField = (Mode = "pc")                        \* srv.PacketConn # nil
   /\ lsnOpen = [l \in Lsn |-> TRUE] /\ pend = [l \in Lsn |-> {}]
   /\ pcOpen = TRUE /\ pcDL = "none" /\ pin = 0
   /\ spc = [p \in P |-> "idle"] /\ sgen = [p \in P |-> 0] /\ sres = [p \in P |-> "-"]
@@ -111,7 +117,7 @@ Init ==
   /\ copen = [c \in C |-> TRUE] /\ hrep = [c \in C |-> FALSE] /\ hclosed = [c \in C |-> FALSE]
   /\ kpc = [k \in K |-> "none"] /\ kown = [k \in K |-> 0] /\ nread = 0
   /\ shpc = [h \in H |-> "idle"] /\ shres = [h \in H |-> "-"] /\ shgen = [h \in H |-> 0]
-  /\ capt = [h \in H |-> 0] /\ kick = [h \in H |-> {}] /\ shseen = [h \in H |-> {}]
+  /\ capt = [h \in H |-> 0] /\ kick = [h \in H |-> {}] /\ shseen = [h \in H |-> {}] /\ shtodo = [h \in H |-> {}]
   /\ cst = [c \in C |-> "new"] /\ csent = [c \in C |-> 0] /\ inbox = [c \in C |-> 0] /\ psent = 0
   /\ replyLost = FALSE /\ crashed = "-" /\ act = <<>>
 
@@ -121,12 +127,13 @@ Init ==
 StLock(p, bad) ==                 \* srv.lock.Lock(); defer unlock()
   /\ spc[p] = "idle" /\ Free         \* bad: a call that cannot succeed whatever the configuration
   /\ (bad => StartMayFail)           \* (ListenAndServe with an unsupported Net / an unusable address)
+  /\ (Mode = "tcp" => ~pcField)       \* ActivateAndServe would serve the PacketConn: the harness clears it first
   /\ (SeqRestart => /\ \A q \in P : spc[q] \in {"idle", "returned"}
                     /\ \A h \in H : shpc[h] \in {"idle", "returned"})
   /\ lock' = <<"s", p>>
   /\ spc' = [spc EXCEPT ![p] = "locked"]
   /\ sbad' = [sbad EXCEPT ![p] = bad]
-  /\ UNCHANGED <<started, gen, closed, conns, lsnField, cfgBad, transp, sgen, sres, wg, scur, serr, slsn, sbad, wvars, kvars, shvars, cvars, hist>>
+  /\ UNCHANGED <<started, gen, closed, conns, lsnField, cfgBad, pcField, transp, sgen, sres, wg, scur, serr, slsn, sbad, wvars, kvars, shvars, cvars, hist>>
   /\ L(<<"StLock", p, bad>>)
 
 StBody(p) ==                      \* if srv.started {return err}; srv.init(); <checks>; srv.started = true; unlock()
@@ -156,13 +163,13 @@ StBody(p) ==                      \* if srv.started {return err}; srv.init(); <c
           /\ spc' = [spc EXCEPT ![p] = "top"]
           /\ UNCHANGED sres
           /\ L(<<"StStarted", p>>)
-  /\ UNCHANGED <<closed, lsnField, cfgBad, transp, scur, serr, sbad, wvars, kvars, shvars, cvars, hist>>
+  /\ UNCHANGED <<closed, lsnField, cfgBad, pcField, transp, scur, serr, sbad, wvars, kvars, shvars, cvars, hist>>
 
 StErrReturn(p) ==                 \* the deferred unlock() on the error path
   /\ spc[p] = "err"
   /\ lock' = NoLock
   /\ spc' = [spc EXCEPT ![p] = "returned"]
-  /\ UNCHANGED <<started, gen, closed, conns, lsnField, cfgBad, transp, sgen, sres, wg, scur, serr, slsn, sbad, wvars, kvars, shvars, cvars, hist>>
+  /\ UNCHANGED <<started, gen, closed, conns, lsnField, cfgBad, pcField, transp, sgen, sres, wg, scur, serr, slsn, sbad, wvars, kvars, shvars, cvars, hist>>
   /\ L(<<"StErrReturn", p>>)
 
 -----------------------------------------------------------------------------
@@ -215,7 +222,7 @@ SRegister(p) ==                   \* lock; conns[rw] = {}; unlock; wg.Add(1); go
   /\ wg' = [wg EXCEPT ![p] = @ + 1]
   /\ scur' = [scur EXCEPT ![p] = 0]
   /\ spc' = [spc EXCEPT ![p] = "top"]
-  /\ UNCHANGED <<started, lock, gen, closed, lsnField, cfgBad, transp, sgen, sres, serr, slsn, sbad, dl, copen, hrep, hclosed, kvars, shvars, cvars, hist>>
+  /\ UNCHANGED <<started, lock, gen, closed, lsnField, cfgBad, pcField, transp, sgen, sres, serr, slsn, sbad, dl, copen, hrep, hclosed, kvars, shvars, cvars, hist>>
 
 \* broken variant "reg_after_spawn": the worker is spawned first, the connection registered afterwards
 SSpawnFirst(p) ==
@@ -232,7 +239,7 @@ SRegLate(p) ==
   /\ conns' = conns \cup {scur[p]}
   /\ scur' = [scur EXCEPT ![p] = 0]
   /\ spc' = [spc EXCEPT ![p] = "top"]
-  /\ UNCHANGED <<started, lock, gen, closed, lsnField, cfgBad, transp, sgen, sres, wg, serr, slsn, sbad, wvars, kvars, shvars, cvars, hist>>
+  /\ UNCHANGED <<started, lock, gen, closed, lsnField, cfgBad, pcField, transp, sgen, sres, wg, serr, slsn, sbad, wvars, kvars, shvars, cvars, hist>>
   /\ L(<<"SRegLate", p>>)
 
 SDrain(p) ==                      \* defer: wg.Wait() returns
@@ -251,7 +258,7 @@ SCloseChan(p) ==                  \* defer: close(srv.shutdown) -- the field as 
      ELSE /\ closed' = closed \cup {gen}
           /\ UNCHANGED <<crashed, sres>>
   /\ spc' = [spc EXCEPT ![p] = "closed"]
-  /\ UNCHANGED <<started, lock, gen, conns, lsnField, cfgBad, transp, sgen, wg, scur, serr, slsn, sbad, wvars, kvars, shvars, cvars, replyLost>>
+  /\ UNCHANGED <<started, lock, gen, conns, lsnField, cfgBad, pcField, transp, sgen, wg, scur, serr, slsn, sbad, wvars, kvars, shvars, cvars, replyLost>>
   /\ L(<<"SCloseChan", p, gen>>)
 
 SReturn(p) ==                     \* defer l.Close(); deferred unlock() (a no-op: once); the serve call returns
@@ -264,7 +271,7 @@ SReturn(p) ==                     \* defer l.Close(); deferred unlock() (a no-op
                       ELSE lock' = NoLock /\ UNCHANGED crashed
      ELSE UNCHANGED <<lock, crashed>>
   /\ spc' = [spc EXCEPT ![p] = "returned"]
-  /\ UNCHANGED <<started, gen, closed, conns, lsnField, cfgBad, pend, pcDL, pin, sgen, sres, wg, scur, serr, slsn, sbad, wvars, kvars, shvars, cvars, replyLost>>
+  /\ UNCHANGED <<started, gen, closed, conns, lsnField, cfgBad, pcField, pend, pcDL, pin, sgen, sres, wg, scur, serr, slsn, sbad, wvars, kvars, shvars, cvars, replyLost>>
   /\ L(<<"SReturn", p, sres[p]>>)
 
 \* ---- PacketConn / UDP serve loop
@@ -385,7 +392,7 @@ WUnreg(c) ==                      \* lock; delete(srv.conns, rw) -- the CURRENT 
   /\ conns' = conns \ {c}
   /\ wg' = [wg EXCEPT ![wown[c]] = @ - 1]
   /\ wpc' = [wpc EXCEPT ![c] = "done"]
-  /\ UNCHANGED <<started, lock, gen, closed, lsnField, cfgBad, transp, spc, sgen, sres, scur, serr, slsn, sbad, wown, dl, copen, hrep, hclosed, kvars, shvars, cvars, hist>>
+  /\ UNCHANGED <<started, lock, gen, closed, lsnField, cfgBad, pcField, transp, spc, sgen, sres, scur, serr, slsn, sbad, wown, dl, copen, hrep, hclosed, kvars, shvars, cvars, hist>>
   /\ L(<<"WUnreg", c>>)
 
 WExit(c) ==                       \* the goroutine is gone
@@ -439,28 +446,37 @@ ShBegin(h) ==                     \* Lock; if !started {Unlock; return err}; sta
   /\ IF ~started /\ Bug # "no_shut_check"
      THEN /\ shpc' = [shpc EXCEPT ![h] = "returned"]
           /\ shres' = [shres EXCEPT ![h] = "notstarted"]
-          /\ UNCHANGED <<started, lock, shgen, kick, shseen>>
+          /\ UNCHANGED <<started, lock, shgen, kick, shseen, shtodo>>
           /\ L(<<"ShRefused", h>>)
      ELSE /\ started' = FALSE
           /\ lock' = <<"h", h>>
           /\ shgen' = [shgen EXCEPT ![h] = gen]
           /\ kick' = [kick EXCEPT ![h] = conns]
           /\ shseen' = [shseen EXCEPT ![h] = { p \in P : sgen[p] = gen /\ InLoop(p) }]   \* history: the serve calls this shutdown stops
-          /\ shpc' = [shpc EXCEPT ![h] = "closing"]
+          /\ shtodo' = [shtodo EXCEPT ![h] = FieldsSet]
+          /\ shpc' = [shpc EXCEPT ![h] = IF FieldsSet = {} THEN "kick" ELSE "closing"]
           /\ UNCHANGED shres
           /\ L(<<"ShBegin", h>>)
-  /\ UNCHANGED <<gen, closed, conns, lsnField, cfgBad, transp, svars, wvars, kvars, capt, cvars, hist>>
+  /\ UNCHANGED <<gen, closed, conns, lsnField, cfgBad, pcField, transp, svars, wvars, kvars, capt, cvars, hist>>
 
-ShCloseL(h) ==                    \* PacketConn.SetReadDeadline(aLongTimeAgo) / Listener.Close(), lock held
-  /\ shpc[h] = "closing"
-  /\ IF Mode = "tcp"
-     THEN /\ lsnOpen' = IF lsnField # 0 /\ Bug # "no_listener_close"
-                        THEN [lsnOpen EXCEPT ![lsnField] = FALSE] ELSE lsnOpen
-          /\ UNCHANGED pcDL
-     ELSE /\ pcDL' = IF Bug # "no_listener_close" THEN "past" ELSE pcDL
-          /\ UNCHANGED lsnOpen
-  /\ shpc' = [shpc EXCEPT ![h] = "kick"]
-  /\ UNCHANGED <<fields, pend, pcOpen, pin, svars, wvars, kvars, shres, shgen, capt, kick, shseen, cvars, hist>>
+\* ShutdownContext touches BOTH fields, each when it is set (lock held):
+\*   if srv.PacketConn != nil {SetReadDeadline(aLongTimeAgo)} ; if srv.Listener != nil {Close()}
+\* The statement does not care about the order of the two, so the model admits both.
+ShKickPC(h) ==
+  /\ shpc[h] = "closing" /\ "pc" \in shtodo[h]
+  /\ pcDL' = IF Bug = "no_listener_close" /\ Mode = "pc" THEN pcDL ELSE "past"
+  /\ shtodo' = [shtodo EXCEPT ![h] = @ \ {"pc"}]
+  /\ shpc' = [shpc EXCEPT ![h] = IF shtodo[h] = {"pc"} THEN "kick" ELSE "closing"]
+  /\ UNCHANGED <<fields, lsnOpen, pend, pcOpen, pin, svars, wvars, kvars, shres, shgen, capt, kick, shseen, cvars, hist>>
+  /\ L(<<"ShKickPC", h>>)
+
+ShCloseL(h) ==
+  /\ shpc[h] = "closing" /\ "lsn" \in shtodo[h]
+  /\ lsnOpen' = IF (Bug = "no_listener_close" /\ Mode = "tcp") \/ (Bug = "switch_close" /\ HasPC)
+                 THEN lsnOpen ELSE [lsnOpen EXCEPT ![lsnField] = FALSE]
+  /\ shtodo' = [shtodo EXCEPT ![h] = @ \ {"lsn"}]
+  /\ shpc' = [shpc EXCEPT ![h] = IF shtodo[h] = {"lsn"} THEN "kick" ELSE "closing"]
+  /\ UNCHANGED <<fields, pend, pcOpen, pcDL, pin, svars, wvars, kvars, shres, shgen, capt, kick, shseen, cvars, hist>>
   /\ L(<<"ShCloseL", h>>)
 
 ShKick(h, c) ==                   \* for rw := range srv.conns {rw.SetReadDeadline(aLongTimeAgo)}, lock held
@@ -469,42 +485,42 @@ ShKick(h, c) ==                   \* for rw := range srv.conns {rw.SetReadDeadli
   /\ IF Bug = "sh_closes_conns"
      THEN copen' = [copen EXCEPT ![c] = FALSE] /\ UNCHANGED dl
      ELSE dl' = [dl EXCEPT ![c] = "past"] /\ UNCHANGED copen
-  /\ UNCHANGED <<fields, transp, svars, wpc, wown, hrep, hclosed, kvars, shpc, shres, shgen, capt, shseen, cvars, hist>>
+  /\ UNCHANGED <<fields, transp, svars, wpc, wown, hrep, hclosed, kvars, shpc, shres, shgen, capt, shseen, shtodo, cvars, hist>>
   /\ L(<<"ShKick", h, c>>)
 
 ShUnlock(h) ==
   /\ shpc[h] = "kick" /\ kick[h] = {}
   /\ lock' = NoLock
   /\ shpc' = [shpc EXCEPT ![h] = "select"]
-  /\ UNCHANGED <<started, gen, closed, conns, lsnField, cfgBad, transp, svars, wvars, kvars, shres, shgen, capt, kick, shseen, cvars, hist>>
+  /\ UNCHANGED <<started, gen, closed, conns, lsnField, cfgBad, pcField, transp, svars, wvars, kvars, shres, shgen, capt, kick, shseen, shtodo, cvars, hist>>
   /\ L(<<"ShUnlock", h>>)
 
 ShCapture(h) ==                   \* select evaluates srv.shutdown: the field as it is NOW
   /\ shpc[h] = "select"
   /\ capt' = [capt EXCEPT ![h] = gen]
   /\ shpc' = [shpc EXCEPT ![h] = "wait"]
-  /\ UNCHANGED <<fields, transp, svars, wvars, kvars, shres, shgen, kick, shseen, cvars, hist>>
+  /\ UNCHANGED <<fields, transp, svars, wvars, kvars, shres, shgen, kick, shseen, shtodo, cvars, hist>>
   /\ L(<<"ShCapture", h, gen>>)
 
 ShWake(h) ==                      \* case <-srv.shutdown
   /\ shpc[h] = "wait" /\ capt[h] \in closed
   /\ shres' = [shres EXCEPT ![h] = "ok"]
-  /\ shpc' = [shpc EXCEPT ![h] = IF Mode = "tcp" THEN "returned" ELSE "after"]
-  /\ UNCHANGED <<fields, transp, svars, wvars, kvars, shgen, capt, kick, shseen, cvars, hist>>
+  /\ shpc' = [shpc EXCEPT ![h] = IF HasPC THEN "after" ELSE "returned"]
+  /\ UNCHANGED <<fields, transp, svars, wvars, kvars, shgen, capt, kick, shseen, shtodo, cvars, hist>>
   /\ L(<<"ShWake", h>>)
 
 ShCtx(h) ==                       \* case <-ctx.Done()
   /\ CtxMayExpire /\ shpc[h] = "wait"
   /\ shres' = [shres EXCEPT ![h] = "ctx"]
-  /\ shpc' = [shpc EXCEPT ![h] = IF Mode = "tcp" THEN "returned" ELSE "after"]
-  /\ UNCHANGED <<fields, transp, svars, wvars, kvars, shgen, capt, kick, shseen, cvars, hist>>
+  /\ shpc' = [shpc EXCEPT ![h] = IF HasPC THEN "after" ELSE "returned"]
+  /\ UNCHANGED <<fields, transp, svars, wvars, kvars, shgen, capt, kick, shseen, shtodo, cvars, hist>>
   /\ L(<<"ShCtx", h>>)
 
-ShClosePC(h) ==                   \* srv.PacketConn.Close()
-  /\ Mode = "pc" /\ shpc[h] = "after"
+ShClosePC(h) ==                   \* if srv.PacketConn != nil {srv.PacketConn.Close()}
+  /\ shpc[h] = "after"
   /\ pcOpen' = FALSE
   /\ shpc' = [shpc EXCEPT ![h] = "returned"]
-  /\ UNCHANGED <<fields, lsnOpen, pend, pcDL, pin, svars, wvars, kvars, shres, shgen, capt, kick, shseen, cvars, hist>>
+  /\ UNCHANGED <<fields, lsnOpen, pend, pcDL, pin, svars, wvars, kvars, shres, shgen, capt, kick, shseen, shtodo, cvars, hist>>
   /\ L(<<"ShClosePC", h>>)
 
 -----------------------------------------------------------------------------
@@ -545,8 +561,20 @@ HSetListener(l) ==                \* the harness assigns a fresh listener to srv
                     /\ \A h \in H : shpc[h] \in {"idle", "returned"})
   /\ gen > 0
   /\ lsnField' = l
-  /\ UNCHANGED <<started, lock, gen, closed, conns, cfgBad, transp, svars, wvars, kvars, shvars, cvars, hist>>
+  /\ UNCHANGED <<started, lock, gen, closed, conns, cfgBad, pcField, transp, svars, wvars, kvars, shvars, cvars, hist>>
   /\ L(<<"HSetListener", l>>)
+
+HSparePC ==                       \* srv.PacketConn := a packet conn nobody serves, on a running tcp server
+  /\ SpareFields /\ Mode = "tcp" /\ ~pcField /\ started /\ Free
+  /\ pcField' = TRUE /\ pcOpen' = TRUE /\ pcDL' = "none"
+  /\ UNCHANGED <<started, lock, gen, closed, conns, lsnField, cfgBad, lsnOpen, pend, pin, svars, wvars, kvars, shvars, cvars, hist>>
+  /\ L(<<"HSparePC">>)
+
+HSpareLsn(l) ==                   \* srv.Listener := a listener nobody serves, on a value that serves its PacketConn
+  /\ SpareFields /\ Mode = "pc" /\ lsnField = 0 /\ l \in Lsn /\ l = 1 /\ Free
+  /\ lsnField' = l
+  /\ UNCHANGED <<started, lock, gen, closed, conns, cfgBad, pcField, transp, svars, wvars, kvars, shvars, cvars, hist>>
+  /\ L(<<"HSpareLsn", l>>)
 
 HCalm == /\ Free /\ \A q \in P : spc[q] \in {"idle", "returned"}      \* no call of the server is in progress
          /\ \A h \in H : shpc[h] \in {"idle", "returned"}
@@ -554,13 +582,19 @@ HCalm == /\ Free /\ \A q \in P : spc[q] \in {"idle", "returned"}      \* no call
 HBreak ==                         \* the caller leaves the server without a usable listener / packet conn
   /\ StartMayFail /\ ~cfgBad /\ ~started /\ HCalm                            \* (nil, or a closed *net.UDPConn)
   /\ cfgBad' = TRUE
-  /\ UNCHANGED <<started, lock, gen, closed, conns, lsnField, transp, svars, wvars, kvars, shvars, cvars, hist>>
+  /\ UNCHANGED <<started, lock, gen, closed, conns, lsnField, pcField, transp, svars, wvars, kvars, shvars, cvars, hist>>
   /\ L(<<"HBreak">>)
+
+HClearPC ==                       \* srv.PacketConn := nil before the value is started again on its listener
+  /\ Mode = "tcp" /\ pcField /\ HCalm
+  /\ pcField' = FALSE
+  /\ UNCHANGED <<started, lock, gen, closed, conns, lsnField, cfgBad, transp, svars, wvars, kvars, shvars, cvars, hist>>
+  /\ L(<<"HClearPC">>)
 
 HFix ==                           \* ... and puts the usable one back
   /\ cfgBad /\ HCalm
   /\ cfgBad' = FALSE
-  /\ UNCHANGED <<started, lock, gen, closed, conns, lsnField, transp, svars, wvars, kvars, shvars, cvars, hist>>
+  /\ UNCHANGED <<started, lock, gen, closed, conns, lsnField, pcField, transp, svars, wvars, kvars, shvars, cvars, hist>>
   /\ L(<<"HFix">>)
 
 -----------------------------------------------------------------------------
@@ -574,9 +608,9 @@ WorkerStep(c)  == \/ WStart(c) \/ WLoop(c) \/ WSetDeadline(c) \/ WReadOk(c) \/ W
 WorkerFair(c)  == \/ WStart(c) \/ WLoop(c) \/ WSetDeadline(c) \/ WReadOk(c) \/ WReadTimeout(c) \/ WReadEOF(c)
                   \/ WHandlerEnter(c) \/ WReply(c) \/ WHandlerExit(c) \/ WClose(c) \/ WUnreg(c) \/ WExit(c)
 PacketStep(k)  == KStart(k) \/ KEnter(k) \/ KReply(k) \/ KExit(k) \/ KGone(k)
-ShutStep(h)    == ShBegin(h) \/ ShCloseL(h) \/ (\E c \in C : ShKick(h, c)) \/ ShUnlock(h) \/ ShCapture(h) \/ ShWake(h) \/ ShClosePC(h)
+ShutStep(h)    == ShBegin(h) \/ ShKickPC(h) \/ ShCloseL(h) \/ (\E c \in C : ShKick(h, c)) \/ ShUnlock(h) \/ ShCapture(h) \/ ShWake(h) \/ ShClosePC(h)
 ClientStep     == (\E c \in C : (\E l \in Lsn : CConnect(c, l)) \/ CSend(c) \/ CClose(c)) \/ CSendPkt
-                  \/ (\E l \in Lsn : HSetListener(l)) \/ HBreak \/ HFix
+                  \/ (\E l \in Lsn : HSetListener(l) \/ HSpareLsn(l)) \/ HBreak \/ HFix \/ HSparePC \/ HClearPC
 
 Next == \/ \E p \in P : StarterStep(p) \/ ServeStep(p)
         \/ \E c \in C : WorkerStep(c)
@@ -589,7 +623,7 @@ Next == \/ \E p \in P : StarterStep(p) \/ ServeStep(p)
 Fairness == /\ \A p \in P : WF_vars(StBody(p) \/ StErrReturn(p) \/ ServeStep(p))
             /\ \A c \in C : WF_vars(WorkerFair(c))
             /\ \A k \in K : WF_vars(PacketStep(k))
-            /\ \A h \in H : WF_vars(ShCloseL(h) \/ (\E c \in C : ShKick(h, c)) \/ ShUnlock(h) \/ ShCapture(h) \/ ShWake(h) \/ ShClosePC(h))
+            /\ \A h \in H : WF_vars(ShKickPC(h) \/ ShCloseL(h) \/ (\E c \in C : ShKick(h, c)) \/ ShUnlock(h) \/ ShCapture(h) \/ ShWake(h) \/ ShClosePC(h))
 
 Spec == Init /\ [][Next]_vars /\ Fairness
 
@@ -597,7 +631,7 @@ Spec == Init /\ [][Next]_vars /\ Fairness
 (* Properties                                                                *)
 
 TypeOK ==
-  /\ started \in BOOLEAN /\ cfgBad \in BOOLEAN /\ gen \in 0..NStart /\ closed \subseteq 1..NStart /\ conns \subseteq C
+  /\ started \in BOOLEAN /\ cfgBad \in BOOLEAN /\ pcField \in BOOLEAN /\ gen \in 0..NStart /\ closed \subseteq 1..NStart /\ conns \subseteq C
   /\ \A p \in P : spc[p] \in {"idle", "locked", "err", "top", "accept", "rdl", "read", "got", "got2", "goterr",
                               "defer", "drained", "closed", "returned"}
   /\ \A p \in P : wg[p] >= 0
@@ -653,7 +687,7 @@ OneLoopPerGeneration ==
 
 ShutdownNotStartedErrors ==
   [][ \A h \in H : shpc[h] = "idle" /\ shpc'[h] # "idle" =>
-        IF started THEN shpc'[h] = "closing" /\ ~started'
+        IF started THEN shpc'[h] \in {"closing", "kick"} /\ ~started'
                    ELSE shpc'[h] = "returned" /\ shres'[h] = "notstarted" /\ UNCHANGED started ]_vars
 
 \* srv.lock: held only inside the two multi-step sections, whose holder can always move.
